@@ -402,7 +402,22 @@ class Ctx:
         return z3.ForAll([k], z3.Implies(z3.And(to_int(lo) <= k, k < to_int(hi)), body))
 
     def Forall2(self, r0, r1, f):
-        return self.Forall(r0[0], r0[1], lambda i: self.Forall(r1[0], r1[1], lambda j: f(i, j)))
+        """one quantifier over both indices (better triggers than two nested quantifiers)"""
+        c0 = (conc_int(r0[0]), conc_int(r0[1]))
+        c1 = (conc_int(r1[0]), conc_int(r1[1]))
+        if self.mode == 'conc' or (None not in c0 and None not in c1 and (c0[1] - c0[0]) * (c1[1] - c1[0]) <= 256):
+            return self.Forall(r0[0], r0[1], lambda i: self.Forall(r1[0], r1[1], lambda j: f(i, j)))
+        i, j = self.fresh('q'), self.fresh('q')
+        self.qvars.extend([i, j])
+        try:
+            body = f(i, j)
+        finally:
+            self.qvars.pop()
+            self.qvars.pop()
+        rng = z3.And(to_int(r0[0]) <= i, i < to_int(r0[1]), to_int(r1[0]) <= j, j < to_int(r1[1]))
+        if not is_sym(body):
+            return True if body else z3.ForAll([i, j], z3.Not(rng))
+        return z3.ForAll([i, j], z3.Implies(rng, body))
 
     def ForallInt(self, f):
         """for all integers k (no range) -- sym only; used for frame clauses"""
@@ -436,26 +451,38 @@ class Ctx:
             return acc
         if self.mode == 'bmc':
             raise EngineError('Sum with symbolic bounds in a bounded instance: fix the size (%s,%s)' % (lo, hi))
-        K = z3.Int('k?')
-        body = to_real(f(K))
-        params = [q for q in self.qvars if _occurs(q, body)]
-        # loop-state constants of the enclosing function are ordinary free constants of the body
-        ph = [z3.Int('p?%d' % i) for i in range(len(params))]
-        nb = z3.simplify(z3.substitute(body, *zip(params, ph))) if params else z3.simplify(body)
+        depth = getattr(self, '_sumdepth', 0)
+        K = z3.Int('k?%d' % depth)
+        self._sumdepth = depth + 1
+        try:
+            body = to_real(f(K))
+        finally:
+            self._sumdepth = depth
+        # Lambda-lift: every free Int/Real constant of the body (quantified variables still open, loop
+        # constants, inputs, an enclosing Sum's index) becomes a parameter, in first-occurrence order of the
+        # un-simplified term.  Two uses of the same spec text therefore share one spec function whatever
+        # their arguments are, and congruence relates them.
+        params = _free_consts(body, exclude=K)
+        # canonical names (independent of nesting depth) so that equal spec text gives ONE spec function
+        ph = [z3.Const('p?%d' % i, q.sort()) for i, q in enumerate(params)]
+        Kc = z3.Int('k?')
+        nb = z3.substitute(body, (K, Kc), *zip(params, ph))
+        K = Kc
         key = nb.sexpr()
         if key not in self.sums:
-            fn = z3.Function('Sum!%d' % len(self.sums), *([INT] * (2 + len(params)) + [REAL]))
+            fn = z3.Function('Sum!%d' % len(self.sums), *([INT, INT] + [q.sort() for q in params] + [REAL]))
 
             def bodyfn(k, *ps, nb=nb, ph=ph, K=K):
                 return z3.substitute(nb, (K, k), *zip(ph, ps))
             self.sums[key] = SumFn(fn, bodyfn, len(params))
+            self.sums[key].sorts = [q.sort() for q in params]
         return self.sums[key].f(to_int(lo), to_int(hi), *params)
 
     def sum_axioms(self):
         ax = []
         for s in self.sums.values():
             a, b = z3.Ints('a? b?')
-            ps = [z3.Int('ps?%d' % i) for i in range(s.arity)]
+            ps = [z3.Const('ps?%d' % i, srt) for i, srt in enumerate(s.sorts)]
             app = s.f(a, b, *ps)
             ax.append(z3.ForAll([a, b] + ps, z3.Implies(b <= a, app == 0), patterns=[app]))
             ax.append(z3.ForAll([a, b] + ps, z3.Implies(b > a, app == s.f(a, b - 1, *ps) + s.body(b - 1, *ps)),
@@ -530,6 +557,30 @@ def _flat(xs):
                 yield y
         else:
             yield x
+
+
+def _free_consts(t, exclude=None):
+    """free uninterpreted Int/Real constants of t in first-occurrence (DFS, argument) order"""
+    out, seen = [], set()
+    ex = exclude.get_id() if exclude is not None else None
+
+    def walk(x):
+        i = x.get_id()
+        if i in seen:
+            return
+        seen.add(i)
+        if z3.is_quantifier(x):
+            walk(x.body())
+            return
+        if z3.is_const(x):
+            if x.decl().kind() == z3.Z3_OP_UNINTERPRETED and i != ex and (z3.is_int(x) or z3.is_real(x)):
+                out.append(x)
+            return
+        if z3.is_app(x):
+            for ch in x.children():
+                walk(ch)
+    walk(t)
+    return out
 
 
 def _occurs(v, t):
